@@ -1,253 +1,746 @@
-"""C09 Kronecker-delta evaluation."""
+"""C09 Kronecker-delta evaluation, decided by evaluating the code on a finite orbital model."""
 from __future__ import annotations
 
-import ast
 import itertools
+from fractions import Fraction
 
-from ..abseval import Interp, Rec
-from ..model import (AnalysisError, U, Defs, calls_in, call_name, walk_fn,
-                     enclosing_stmt, stmt_lists)
-from ..pathcond import conditions
-from . import common
+from ..model import AnalysisError
+from ..symex import Symex, Atom
+from ..terms import T
 
 EXPLANATION = (
-    "R09a: every index substitution in func.evaluate_deltas whose arguments are the "
-    "two components of d.preferred_and_killable is dominated by `removed not in "
-    "target_idx`, and additionally by d.indices_contain_equal_information when the "
-    "removed index is the preferred one; a None pair is skipped before unpacking. "
-    "R09b: decision tables of KroneckerDelta.preferred_and_killable and "
-    "indices_contain_equal_information extracted over all 81 (space,spin)^2 inputs: "
-    "a returned (kept, removed) pair must satisfy info(kept) >= info(removed) "
-    "componentwise. R09c: target determination (index is a target iff it occurs on "
-    "exactly one factor), propagation of the target list through the recursion, "
-    "and re-derivation of the deltas after each substitution.")
+    "func.evaluate_deltas, KroneckerDelta.preferred_and_killable and indices_contain_equal_information are evaluated "
+    "by sa.symex (helpers inlined, nothing read off the source text) on concrete abstract terms: products and sums "
+    "of formal tensors, numbers and Kronecker deltas over indices that carry (space, spin) in {occ,virt,general} x "
+    "{none,alpha,beta}; the sympy primitives (atoms, subs/xreplace, func/Add/Mul, KroneckerDelta evaluation, "
+    "get_symbols) are modelled by the rule. The expected behaviour is stated independently on an orbital model "
+    "with two orbitals per (occ|virt, alpha|beta) class: dom(index) = orbitals compatible with its space and spin, "
+    "info(x) >= info(y) iff dom(x) is a subset of dom(y), a delta is 1 on equal orbitals and 0 otherwise, a term "
+    "is the polynomial in formal tensor elements obtained by summing all non-target indices over their domains. "
+    "R09a: every substitution performed during the evaluation replaces an index that is not a target by the other "
+    "index of a delta of the current term, and the replacement carries at least the information of the removed "
+    "index; a delta whose indices carry incomparable information is passed over without an exception. "
+    "R09b: decision tables of preferred_and_killable / indices_contain_equal_information over all 81 (space,spin)^2 "
+    "inputs: a returned pair consists of the two indices with info(kept) >= info(removed), None is returned only "
+    "for incomparable information, equal information is equality of space and spin. "
+    "R09c: for every scenario (single deltas, chains, spectators, numeric prefactors, sums, non-products; both "
+    "argument orders of every delta, both factor orders; targets by the summation convention = indices on exactly "
+    "one factor, or explicit as Index list / name string) within the precondition of the property (every contracted "
+    "index sits on a non-delta factor) the returned expression has the same polynomial value for every assignment "
+    "of the target indices, and it is in normal form: no remaining delta could still be evaluated without "
+    "removing a target or losing information (stale deltas after a substitution, targets lost in the recursion or "
+    "in the Add branch, wrong target determination all show up here).")
 ASSUMPTIONS = [
-    "sympy's subs replaces every occurrence of the removed index",
-    "termination/confluence of the recursion and value preservation for chains "
-    "follow from the per-step rules but are not proved",
+    "sympy's subs/xreplace replace every occurrence of the removed index; Mul/Add rebuild as modelled (delta of "
+    "identical indices = 1, of incompatible indices = 0, equal deltas merge, single factor products collapse)",
+    "scenarios are bounded: at most 4 indices and 2 deltas per term, orbital model with 2 orbitals per class; "
+    "equality of the polynomial values on this model stands for equality of the expressions",
+    "deltas keep the argument order produced by the substitution (sympy would re-sort them canonically); the "
+    "property is required for both orders",
+    "termination/confluence of the recursion for longer chains follow from the per-step rules but are not proved",
 ]
 
+FN = "func:evaluate_deltas"
+KD = "sympy_objects:KroneckerDelta"
 PK = "preferred_and_killable"
+EQ = "indices_contain_equal_information"
+
+SPACES = ("occ", "virt", "general")
+SPINS = ("", "a", "b")
+TYPES = [(s, p) for s in SPACES for p in SPINS]
+ORBITALS = [(s, p, n) for s in ("occ", "virt") for p in ("a", "b") for n in (0, 1)]
+
+IDX_CLS = ("Index", "Dummy", "Symbol", "AtomicExpr", "Atom", "Expr", "Basic")
+DELTA_CLS = ("KroneckerDelta", "Function", "Application", "Expr", "Basic")
+TENSOR_CLS = ("AntiSymmetricTensor", "TensorSymbol", "Expr", "Basic")
+NUM_CLS = ("Number", "Rational", "AtomicExpr", "Atom", "Expr", "Basic")
 
 
-def _component(text: str):
-    """`d.preferred_and_killable[k]` -> (d, k)"""
-    if text.endswith("]") and f".{PK}[" in text:
-        base, _, k = text[:-1].rpartition(f".{PK}[")
-        if k in ("0", "1"):
-            return base, int(k)
-    return None
+# ------------------------------------------------------------------ the orbital model (expected behaviour)
+
+def dom(i):
+    return frozenset(o for o in ORBITALS if i.space in ("general", o[0]) and i.spin in ("", o[1]))
 
 
-def r09a(ctx):
-    fn = ctx.model.fn("func:evaluate_deltas")
-    defs = Defs(fn)
-    res = defs.resolve
-    sites = 0
-    for c in calls_in(fn, nested=False):
-        if call_name(c) != "subs" or len(c.args) != 2 or c.keywords:
+def geq(x, y):
+    """info(x) >= info(y): x is at least as restricted as y."""
+    return dom(x) <= dom(y)
+
+
+def tlabel(t):
+    return f"{t[0][0]}{t[1] or 'n'}"
+
+
+def ilabel(i):
+    return f"{i.name}:{tlabel((i.space, i.spin))}"
+
+
+def kind(x):
+    return x.attrs.get("kind") if isinstance(x, Atom) else None
+
+
+class Algebra:
+    """Concrete abstract terms + the models of the sympy primitives the code under analysis uses."""
+
+    def __init__(self):
+        self.log = []       # (term before, removed index, replacement) per substitution
+        self.names = {}     # name -> index atom (spin-less ones are what get_symbols(str) returns)
+        self.zero = self._atom(None, "0", kind="num", value=Fraction(0), indices=(), args=(), _classes=NUM_CLS + ("Zero", "Integer"))
+        self.one = self._atom(None, "1", kind="num", value=Fraction(1), indices=(), args=(), _classes=NUM_CLS + ("One", "Integer"))
+
+    @staticmethod
+    def _atom(cls, name, **attrs):
+        a = Atom(cls, name)
+        a.attrs.update(attrs)
+        k = attrs.get("kind")
+        # sympy's class flags (an alternative spelling of the isinstance tests)
+        a.attrs.update(_scalar=True, is_Add=k == "add", is_Mul=k == "mul", is_Number=k == "num", is_Symbol=k == "index",
+                       is_Atom=k in ("num", "index"), is_Pow=False, is_Function=k == "delta")
+        if k is not None and k != "index":
+            a.attrs["free_symbols"] = set(Algebra.indices_of(None, a))
+        return a
+
+    # ---- constructors
+    def index(self, name, space, spin):
+        a = self._atom("indices:Index", name + ("_" + spin if spin else ""), kind="index", space=space, spin=spin,
+                       _classes=IDX_CLS, args=())
+        a.attrs["name"] = name
+        a.attrs["indices"] = (a,)
+        a.attrs["free_symbols"] = {a}
+        self.names[(name, spin)] = a
+        return a
+
+    def tensor(self, name, idx):
+        idx = tuple(idx)
+        return self._atom(None, f"{name}({','.join(i.name for i in idx)})", kind="tensor", tname=name, indices=idx,
+                          _classes=TENSOR_CLS)
+
+    def num(self, v):
+        v = Fraction(v)
+        if v == 0:
+            return self.zero
+        if v == 1:
+            return self.one
+        return self._atom(None, str(v), kind="num", value=v, indices=(), args=(), _classes=NUM_CLS)
+
+    def delta(self, x, y, evaluate=True):
+        if evaluate:
+            if x is y:
+                return self.one
+            if not (dom(x) & dom(y)):
+                return self.zero
+        return self._atom(KD, f"delta({x.name},{y.name})", kind="delta", args=(x, y), indices=(x, y), _classes=DELTA_CLS)
+
+    def mul(self, factors):
+        coeff, rest, seen = Fraction(1), [], set()
+        stack = list(factors)[::-1]
+        while stack:
+            f = stack.pop()
+            if isinstance(f, (int, Fraction)) and not isinstance(f, bool):
+                f = self.num(f)
+            k = kind(f)
+            if k == "mul":
+                stack.extend(f.args[::-1])
+            elif k == "num":
+                coeff *= f.value
+            elif k == "delta":
+                key = frozenset(f.args)
+                if key not in seen:     # delta**2 = delta
+                    seen.add(key)
+                    rest.append(f)
+            elif k in ("tensor", "add", "index"):
+                rest.append(f)
+            else:
+                raise AnalysisError(f"C09 model: product of an unmodelled factor {f!r}")
+        if coeff == 0:
+            return self.zero
+        if coeff != 1:
+            rest.insert(0, self.num(coeff))
+        if not rest:
+            return self.one
+        if len(rest) == 1:
+            return rest[0]
+        return self._atom(None, "*".join(r.name for r in rest), kind="mul", args=tuple(rest), _classes=("Mul", "Expr", "Basic"),
+                          func=lambda sx, a, kw: self.mul(a))
+
+    def add(self, terms):
+        out = []
+        stack = list(terms)[::-1]
+        while stack:
+            t = stack.pop()
+            if isinstance(t, (int, Fraction)) and not isinstance(t, bool):
+                t = self.num(t)
+            k = kind(t)
+            if k == "add":
+                stack.extend(t.args[::-1])
+            elif k == "num" and t.value == 0:
+                continue
+            elif k in ("mul", "tensor", "delta", "num", "index"):
+                out.append(t)
+            else:
+                raise AnalysisError(f"C09 model: sum of an unmodelled term {t!r}")
+        if not out:
+            return self.zero
+        if len(out) == 1:
+            return out[0]
+        return self._atom(None, " + ".join(t.name for t in out), kind="add", args=tuple(out), _classes=("Add", "Expr", "Basic"),
+                          func=lambda sx, a, kw: self.add(a))
+
+    # ---- substitution (simultaneous mapping index -> index)
+    def replace(self, e, m):
+        k = kind(e)
+        if k == "index":
+            return m.get(e, e)
+        if k == "num":
+            return e
+        if k == "tensor":
+            return self.tensor(e.tname, [m.get(i, i) for i in e.indices])
+        if k == "delta":
+            return self.delta(m.get(e.args[0], e.args[0]), m.get(e.args[1], e.args[1]))
+        if k == "mul":
+            return self.mul([self.replace(f, m) for f in e.args])
+        if k == "add":
+            return self.add([self.replace(f, m) for f in e.args])
+        raise AnalysisError(f"C09 model: substitution in an unmodelled value {e!r}")
+
+    def indices_of(self, e):
+        k = kind(e)
+        if k in ("mul", "add"):
+            out = []
+            for f in e.args:
+                for i in Algebra.indices_of(self, f):
+                    if i not in out:
+                        out.append(i)
+            return out
+        if k is None:
+            raise AnalysisError(f"C09 model: indices of an unmodelled value {e!r}")
+        out = []
+        for i in e.indices:
+            if i not in out:
+                out.append(i)
+        return out
+
+    # ---- hooks
+    def hooks(self):
+        def cls_names(types):
+            out = []
+            for t in types:
+                n = getattr(t, "short", None) or getattr(t, "name", None) or (t.args[0] if isinstance(t, T) and t.op == "sym" else None)
+                if n is None:
+                    raise AnalysisError(f"C09 model: class argument {t!r} not understood")
+                out.append(str(n).split(".")[-1])
+            return out
+
+        def nodes(e):
+            out = [e]
+            k = kind(e)
+            if k in ("mul", "add"):
+                for f in e.args:
+                    out.extend(nodes(f))
+            elif k in ("tensor", "delta"):
+                out.extend(e.indices)
+            return out
+
+        def need(e, what):
+            if kind(e) is None:
+                raise AnalysisError(f"C09 model: {what} of an unmodelled value {e!r}")
+
+        def h_atoms(sx, a, kw):
+            need(a[0], "atoms()")
+            names = cls_names(a[1:])
+            if not names:
+                return {x for x in nodes(a[0]) if kind(x) in ("index", "num")}
+            return {x for x in nodes(a[0]) if any(n in x.attrs["_classes"] for n in names)}
+
+        def h_has(sx, a, kw):
+            need(a[0], "has()")
+            pats = a[1:]
+            found = False
+            for pat in pats:
+                if kind(pat) is not None:
+                    found = found or any(x is pat for x in nodes(a[0]))
+                else:
+                    n = cls_names([pat])[0]
+                    found = found or any(n in x.attrs["_classes"] for x in nodes(a[0]))
+            return found
+
+        def h_make_args(which):
+            def h(sx, a, kw):
+                e = a[-1]
+                need(e, "make_args()")
+                return tuple(e.args) if kind(e) == which else (e,)
+            return h
+
+        def h_ordered(which):
+            def h(sx, a, kw):
+                need(a[0], "as_ordered_*()")
+                return list(a[0].args) if kind(a[0]) == which else [a[0]]
+            return h
+
+        def pairs_of(a):
+            if len(a) == 2 and kind(a[0]) == "index":
+                return [(a[0], a[1])]
+            if len(a) == 1 and isinstance(a[0], dict):
+                return list(a[0].items())
+            if len(a) == 1 and isinstance(a[0], (list, tuple)):
+                return [tuple(p) for p in a[0]]
+            raise AnalysisError(f"C09 model: substitution arguments {a!r} not understood")
+
+        def h_subs(sx, a, kw):
+            e = a[0]
+            if kind(e) is None:
+                raise AnalysisError(f"C09 model: subs on an unmodelled value {e!r}")
+            pairs = pairs_of(a[1:])
+            for old, new in pairs:
+                if kind(old) != "index" or kind(new) != "index":
+                    raise AnalysisError(f"C09 model: substitution {old!r} -> {new!r} is not index -> index")
+            if kw.get("simultaneous"):
+                for old, new in pairs:
+                    self.log.append((e, old, new))
+                return self.replace(e, dict(pairs))
+            for old, new in pairs:
+                self.log.append((e, old, new))
+                e = self.replace(e, {old: new})
+            return e
+
+        def h_xreplace(sx, a, kw):
+            return h_subs(sx, a, {"simultaneous": True})
+
+        def h_get_symbols(sx, a, kw):
+            v = a[0] if a else kw.get("indices")
+            if v is None or (isinstance(v, (str, list, tuple, set, frozenset)) and not v):
+                return []
+            if kind(v) == "index":
+                return [v]
+            if isinstance(v, str):
+                v = _split(v)
+            out = []
+            for x in v:
+                if kind(x) == "index":
+                    out.append(x)
+                elif isinstance(x, str):
+                    # a name denotes the spin-less index of that name (one instance per name and spin in the library)
+                    out.append(self.names[(x, "")] if (x, "") in self.names else
+                               self.index(x, "occ" if x[0] in "ijklmno" else "virt" if x[0] in "abcdefgh" else "general", ""))
+                else:
+                    raise AnalysisError(f"C09 model: get_symbols({v!r})")
+            return out
+
+        return {"atoms": h_atoms, "subs": h_subs, "xreplace": h_xreplace, "get_symbols": h_get_symbols, "has": h_has,
+                "Mul.make_args": h_make_args("mul"), "Add.make_args": h_make_args("add"),
+                "as_ordered_factors": h_ordered("mul"), "as_ordered_terms": h_ordered("add"),
+                "Add": lambda sx, a, kw: self.add(a), "Mul": lambda sx, a, kw: self.mul(a),
+                "KroneckerDelta": lambda sx, a, kw: self.delta(a[0], a[1])}
+
+
+def _split(s):
+    out = []
+    for ch in s:
+        if ch.isdigit() and out:
+            out[-1] += ch
+        else:
+            out.append(ch)
+    return out
+
+
+# ------------------------------------------------------------------ value of a term on the orbital model
+
+def terms_of(e):
+    return list(e.args) if kind(e) == "add" else [e]
+
+
+def factors_of(t):
+    return list(t.args) if kind(t) == "mul" else [t]
+
+
+def valuation(alg, e, targets):
+    """{assignment of the targets: polynomial {monomial: coefficient}}; non-target indices are summed."""
+    targets = list(targets)
+    out = {}
+    for t in terms_of(e):
+        fs = factors_of(t)
+        coeff = Fraction(1)
+        tens, links = [], []
+        for f in fs:
+            k = kind(f)
+            if k == "num":
+                coeff *= f.value
+            elif k == "delta":
+                links.append(f.args)
+            elif k == "tensor":
+                tens.append(f)
+            elif k == "index":
+                tens.append(alg.tensor("$idx", [f]))
+            else:
+                raise AnalysisError(f"C09 model: value of an unmodelled factor {f!r} (nested sum?)")
+        if coeff == 0:
             continue
-        a, b = (U(res(x)) for x in c.args)
-        ca, cb = _component(a), _component(b)
-        if ca is None or cb is None:
-            ctx.bad("R09a", c, "substitution whose arguments are not the two components of a "
-                    f"delta's preferred_and_killable pair: ({a}, {b})", key="subs args")
+        idxs = list(targets)
+        for i in alg.indices_of(t):
+            if i not in idxs:
+                idxs.append(i)
+        # classes of indices identified by the deltas
+        cls = {i: i for i in idxs}
+
+        def find(i):
+            while cls[i] is not i:
+                i = cls[i]
+            return i
+        for x, y in links:
+            cls[find(x)] = find(y)
+        reps = []
+        for i in idxs:
+            r = find(i)
+            if r not in reps:
+                reps.append(r)
+        doms = []
+        for r in reps:
+            d = None
+            for i in idxs:
+                if find(i) is r:
+                    d = dom(i) if d is None else d & dom(i)
+            doms.append(sorted(d))
+        # the targets are assigned independently: a class with two targets contributes only where they agree,
+        # which is what enumerating the class value does
+        for vals in itertools.product(*doms):
+            rho = {r: v for r, v in zip(reps, vals)}
+            key = tuple(rho[find(i)] for i in targets)
+            mono = tuple(sorted((f.tname, tuple(rho[find(i)] for i in f.indices)) for f in tens))
+            poly = out.setdefault(key, {})
+            poly[mono] = poly.get(mono, 0) + coeff
+    return {k: {m: c for m, c in p.items() if c != 0} for k, p in out.items() if any(c != 0 for c in p.values())}
+
+
+def delta_classes(alg, e):
+    """index -> representative of its class under the deltas of the term(s)."""
+    cls = {i: i for i in alg.indices_of(e)}
+
+    def find(i):
+        if i not in cls:
+            cls[i] = i
+        while cls[i] is not i:
+            i = cls[i]
+        return i
+    for t in terms_of(e):
+        for f in factors_of(t):
+            if kind(f) == "delta":
+                cls[find(f.args[0])] = find(f.args[1])
+    return find
+
+
+def evaluable(x, y, targets):
+    """Reference: delta(x, y) can be removed by replacing a non-target index by one with at least its information."""
+    return (x not in targets and geq(y, x)) or (y not in targets and geq(x, y))
+
+
+def einstein_targets(alg, term):
+    """Summation convention as the library documents it: an index is a target iff it occurs on exactly one factor."""
+    cnt = {}
+    for f in factors_of(term):
+        for i in alg.indices_of(f):
+            cnt[i] = cnt.get(i, 0) + 1
+    return [i for i, n in cnt.items() if n == 1]
+
+
+def precondition(alg, e, targets):
+    """Every contracted index occurs on at least one non-delta factor; no vanishing delta."""
+    for t in terms_of(e):
+        on_other = set()
+        for f in factors_of(t):
+            if kind(f) != "delta":
+                on_other.update(alg.indices_of(f))
+            elif not (dom(f.args[0]) & dom(f.args[1])):
+                return False
+        for i in alg.indices_of(t):
+            if i not in targets and i not in on_other:
+                return False
+    return True
+
+
+# ------------------------------------------------------------------ scenarios
+
+# factor specs: ("d", x, y) delta, ("t", name, (x, ..)) tensor, ("n", value) number; indices are positions 0..n-1
+TEMPLATES = {
+    "d(x,y) X(x) Y(y)": (2, [("d", 0, 1), ("t", "X", (0,)), ("t", "Y", (1,))]),
+    "d(x,y) X(x)": (2, [("d", 0, 1), ("t", "X", (0,))]),
+    "-2 d(x,y) X(x,y)": (2, [("n", -2), ("d", 0, 1), ("t", "X", (0, 1))]),
+    "d(x,y)": (2, [("d", 0, 1)]),
+    "X(x) Y(x,y)": (2, [("t", "X", (0,)), ("t", "Y", (0, 1))]),
+    "d(x,z) d(y,z) X(x) Y(y)": (3, [("d", 0, 2), ("d", 1, 2), ("t", "X", (0,)), ("t", "Y", (1,))]),
+    "d(x,y) d(y,z) X(x) Y(y) Z(z)": (3, [("d", 0, 1), ("d", 1, 2), ("t", "X", (0,)), ("t", "Y", (1,)), ("t", "Z", (2,))]),
+    "d(x,y) d(y,z) X(x) Z(z)": (3, [("d", 0, 1), ("d", 1, 2), ("t", "X", (0,)), ("t", "Z", (2,))]),
+    "d(x,y) X(x) Y(y) Z(z)": (3, [("d", 0, 1), ("t", "X", (0,)), ("t", "Y", (1,)), ("t", "Z", (2,))]),
+    "d(x,y) d(z,w) X(x,z) Y(y) Z(w)": (4, [("d", 0, 1), ("d", 2, 3), ("t", "X", (0, 2)), ("t", "Y", (1,)), ("t", "Z", (3,))]),
+    "d(x,y) d(z,w) X(x) Y(z)": (4, [("d", 0, 1), ("d", 2, 3), ("t", "X", (0,)), ("t", "Y", (2,))]),
+}
+SUMS = {
+    "d(x,z) d(y,z) X(x) Y(y) + d(x,z) W(x,y,y)": (3, [[("d", 0, 2), ("d", 1, 2), ("t", "X", (0,)), ("t", "Y", (1,))],
+                                                      [("d", 0, 2), ("t", "W", (0, 1, 1))]]),
+    "d(x,y) X(x) + 3 V(y)": (2, [[("d", 0, 1), ("t", "X", (0,))], [("n", 3), ("t", "V", (1,))]]),
+}
+NAMES = {"occ": "ijkl", "virt": "abcd", "general": "pqrs"}
+QUICK3 = [("occ", ""), ("occ", "a"), ("general", ""), ("general", "b"), ("virt", "")]
+QUICK4 = [("occ", ""), ("general", ""), ("general", "a")]
+
+
+def build(alg, spec, idx, flip=0, reverse=False):
+    fs = []
+    nd = 0
+    for f in spec:
+        if f[0] == "d":
+            x, y = idx[f[1]], idx[f[2]]
+            if flip >> nd & 1:
+                x, y = y, x
+            nd += 1
+            fs.append(alg.delta(x, y, evaluate=False))
+        elif f[0] == "t":
+            fs.append(alg.tensor(f[1], [idx[k] for k in f[2]]))
+        else:
+            fs.append(alg.num(f[1]))
+    if reverse:
+        fs = fs[::-1]
+    if len(fs) == 1:
+        return fs[0]
+    # built directly (not through alg.mul): the argument order of the deltas is part of the scenario
+    return alg._atom(None, "*".join(f.name for f in fs), kind="mul", args=tuple(fs), _classes=("Mul", "Expr", "Basic"),
+                     func=lambda sx, a, kw: alg.mul(a))
+
+
+def n_deltas(spec):
+    return sum(1 for f in spec if f[0] == "d")
+
+
+def make_indices(alg, types):
+    used = {}
+    out = []
+    for sp, spin in types:
+        k = used.get(sp, 0)
+        used[sp] = k + 1
+        out.append(alg.index(NAMES[sp][k], sp, spin))
+    return out
+
+
+TRIVIAL = ("d(x,y)", "X(x) Y(x,y)")
+
+
+def scenarios(tier):
+    """(label, algebra, expression, true targets, target argument).
+
+    Candidates: template x (space, spin) assignment x argument order of every delta x factor order x target mode
+    (summation convention, every subset of the indices as Index list, and as name string when spin-less), restricted
+    to the precondition of the property.  2-index templates run over all 81 assignments, 3-index ones over all 729
+    (thorough) or QUICK3, 4-index ones over QUICK3 (thorough) or QUICK4.  Always evaluated: the all-(occ, no spin)
+    assignment and the 2-index templates in the given factor order, with convention / Index-list targets; of the
+    rest a deterministic hash sample per template (quick: about 150, thorough: about 2500)."""
+    full = tier == "thorough"
+    for name, (n, spec) in list(TEMPLATES.items()) + list(SUMS.items()):
+        is_sum = name in SUMS
+        pool = TYPES if n == 2 or (full and n == 3) else QUICK3 if n == 3 or full else QUICK4
+        nd = max(n_deltas(s) for s in spec) if is_sum else n_deltas(spec)
+        variants = [(fl, rv) for fl in range(2 ** nd) for rv in (False, True)]
+
+        def make(types, flip, rev):
+            alg = Algebra()
+            idx = make_indices(alg, types)
+            if is_sum:
+                e = alg._atom(None, name, kind="add", _classes=("Add", "Expr", "Basic"),
+                              args=tuple(build(alg, s, idx, flip, rev) for s in spec),
+                              func=lambda sx, a, kw, alg=alg: alg.add(a))
+            else:
+                e = build(alg, spec, idx, flip, rev)
+            return alg, idx, e
+
+        def targets_of(alg, idx, e, mode):
+            if mode == "sum":
+                tgs = [einstein_targets(alg, t) for t in terms_of(e)]
+                if any(set(t) != set(tgs[0]) for t in tgs):
+                    return None     # the terms of one sum share their targets
+                return tgs[0], None
+            how, sel = mode
+            targets = [idx[k] for k in sel]
+            return targets, ("".join(i.name for i in targets) if how == "str" else targets[0] if how == "one" else list(targets))
+
+        cands = []
+        for types in itertools.product(pool, repeat=n):
+            alg, idx, e = make(types, 0, False)
+            for mode in _target_modes(n, types):
+                r = targets_of(alg, idx, e, mode)
+                if r is not None and precondition(alg, e, r[0]):
+                    cands.extend((types, v, mode) for v in variants)
+        goal = (2500 if full else 40 if name in TRIVIAL else 150)
+        p = min(1.0, goal / max(1, len(cands)))
+        for k, (types, (flip, rev), mode) in enumerate(cands):
+            plain = mode == "sum" or mode[0] == "list"
+            # never sampled: the all-(occ, no spin) assignment (control flow: chains, restarts, target passing) and
+            # the 2-index templates in their given factor order (information handling)
+            always = plain and name not in TRIVIAL and (all(t == ("occ", "") for t in types) or (n == 2 and not rev))
+            u = ((k + 1) * 2654435761 % 4294967296) / 4294967296
+            if not always and u >= p:
+                continue
+            alg, idx, e = make(types, flip, rev)
+            targets, arg = targets_of(alg, idx, e, mode)
+            tl = "convention" if arg is None else ("names " if isinstance(arg, str) else "list " if isinstance(arg, list) else "index ") + \
+                "{" + ",".join(i.name for i in targets) + "}"
+            label = f"{name} [{' '.join(tlabel(t) for t in types)}] order {flip}{'r' if rev else ''} targets {tl}"
+            yield label, alg, e, targets, arg
+
+
+def _target_modes(n, types):
+    modes = ["sum"]
+    for r in range(n + 1):
+        for sel in itertools.combinations(range(n), r):
+            modes.append(("list", sel))
+            if r == 1:
+                modes.append(("one", sel))
+            if all(types[k][1] == "" for k in sel):
+                modes.append(("str", sel))
+    return modes
+
+
+# ------------------------------------------------------------------ rules
+
+def make_sx(ctx, alg, what):
+    return Symex(ctx.model, inline=lambda q: True, hooks=alg.hooks(), what=what, max_depth=40, max_paths=64, recursion_error=True)
+
+
+def show_term(e):
+    return e.name if isinstance(e, Atom) else repr(e)
+
+
+class Tally:
+    """Passing scenarios are single obligations; failing ones are reported once per (check, template) with a count and
+    the first examples (a defect usually fails hundreds of scenarios)."""
+
+    def __init__(self, ctx, fn):
+        self.ctx, self.fn, self.fail = ctx, fn, {}
+
+    def check(self, rule, what, label, cond, fact, reason):
+        if cond:
+            self.ctx.ok(rule, self.fn, f"{label}: {fact}", key=f"{what} {label}")
+        else:
+            self.fail.setdefault((rule, what, label.split(" [")[0]), []).append(f"{label}: {reason}")
+        return cond
+
+    def flush(self):
+        for (rule, what, template), msgs in self.fail.items():
+            self.ctx.bad(rule, self.fn, f"{what}: {len(msgs)} scenario(s) of `{template}` fail, e.g. " + " || ".join(msgs[:2]),
+                         key=f"{what} {template}")
+        return not self.fail
+
+
+def r09ac(ctx, tier):
+    fn = ctx.model.fn(FN)
+    params = [a.arg for a in fn.args.args]
+    if params[:2] != ["expr", "target_idx"]:
+        raise AnalysisError(f"evaluate_deltas no longer takes (expr, target_idx): {params}")
+    tally = Tally(ctx, fn)
+    n_scen = n_subs = n_none = 0
+    for label, alg, e, targets, arg in scenarios(tier):
+        n_scen += 1
+        sx = make_sx(ctx, alg, "evaluate_deltas " + label)
+        outs = sx.run(fn, lambda: dict(expr=e, target_idx=list(arg) if isinstance(arg, list) else arg))
+        if len(outs) != 1:
+            raise AnalysisError(f"C09: evaluation of {label} is not deterministic on the concrete model: {outs}")
+        o = outs[0]
+        incomparable = [f for t in terms_of(e) for f in factors_of(t) if kind(f) == "delta"
+                        and not geq(f.args[0], f.args[1]) and not geq(f.args[1], f.args[0])]
+        if o.kind == "raise":
+            if incomparable:
+                tally.check("R09a", "incomparable delta", label, False, "", f"raises {o.exc} on a delta whose indices carry "
+                            "incomparable information (such a delta has to be left in place)")
+            else:
+                tally.check("R09c", "completes", label, False, "", f"raises {o.exc}")
             continue
-        sites += 1
-        d, k = ca
-        ctx.check("R09a", c, cb == (d, 1 - k), "replacement is the other index of the same delta",
-                  f"index {a} replaced by {b}, which is not the other index of the same delta",
-                  key=f"pair k={k}")
-        conds = conditions(c, resolve=res)
-        targets = [t for (t, pol) in conds if not pol and t.startswith(a + " in ")]
-        ctx.check("R09a", c, bool(targets),
-                  f"removal of component {k} dominated by `not in {targets[0].split(' in ')[1] if targets else '?'}`",
-                  f"the removed index `{U(c.args[0])}` is not known to be outside the target indices "
-                  "at this substitution", key=f"target guard k={k}")
-        if k == 0:
-            ctx.check("R09a", c, (f"{d}.indices_contain_equal_information", True) in conds,
-                      "removing the preferred index only with equal information",
-                      "the preferred index is removed without the guard "
-                      "d.indices_contain_equal_information (information is lost)",
-                      key="equal information guard")
-        ctx.check("R09a", c, (f"{d}.{PK} is None", False) in conds,
-                  "None pair skipped before unpacking",
-                  "substitution not dominated by `preferred_and_killable is not None`",
-                  key=f"none guard k={k}")
-        # the result of subs must be what is carried on
-        st = enclosing_stmt(c)
-        ctx.check("R09a", c, isinstance(st, ast.Assign) and U(st.targets[0]) == U(c.func.value),
-                  "substituted expression replaces the working expression",
-                  "result of subs is not assigned back to the working expression", key=f"assign k={k}")
-    ctx.floor("R09a", "delta substitution sites in evaluate_deltas", sites, 2)
+        res = o.value
+        if kind(res) is None:
+            if res is None or isinstance(res, (int, str, tuple, list)):
+                tally.check("R09c", "value", label, False, "", f"returns {res!r} instead of an expression")
+                continue
+            raise AnalysisError(f"C09: result of {label} is outside the model: {res!r}")
+        if incomparable:
+            n_none += 1
+            tally.check("R09a", "incomparable delta", label, True, "passed over", "")
+        # ---- R09a: legality of every substitution performed
+        problems = []
+        linked = delta_classes(alg, e)
+        for before, old, new in alg.log:
+            n_subs += 1
+            if linked(old) is not linked(new):
+                problems.append(f"{ilabel(old)} -> {ilabel(new)} in {show_term(before)}: the two indices are not connected by deltas of the term")
+            if old in targets:
+                problems.append(f"{ilabel(old)} -> {ilabel(new)} in {show_term(before)}: the removed index is a target index")
+            if not geq(new, old):
+                problems.append(f"{ilabel(old)} -> {ilabel(new)} in {show_term(before)}: the replacement carries less space/spin "
+                                "information than the removed index")
+        tally.check("R09a", "substitutions", label, not problems,
+                    f"{len(alg.log)} substitution(s) remove non-target indices without loss of information", "; ".join(problems[:3]))
+        # ---- R09c: value and normal form
+        want, got = valuation(alg, e, targets), valuation(alg, res, targets)
+        msg = ""
+        if want != got:
+            k = next(k for k in sorted(set(want) | set(got)) if want.get(k) != got.get(k))
+            msg = (f"{show_term(e)} -> {show_term(res)} changes the value: for targets "
+                   f"{dict(zip([i.name for i in targets], k))} expected {_poly(want.get(k))}, got {_poly(got.get(k))}")
+        tally.check("R09c", "value", label, want == got, f"value preserved for all {len(want)} non-vanishing target assignments", msg)
+        left = [f for t in terms_of(res) for f in factors_of(t) if kind(f) == "delta" and evaluable(f.args[0], f.args[1], targets)]
+        tally.check("R09c", "normal form", label, not left, "no evaluable delta left",
+                    f"{show_term(e)} -> {show_term(res)} leaves {left[0].name if left else ''} although one of its indices "
+                    "is not a target and can be replaced without loss of information (stale deltas / wrong targets)")
+    if tally.flush():
+        ctx.floor("R09c", "scenarios of evaluate_deltas evaluated", n_scen, 300)
+        ctx.floor("R09a", "substitutions observed while evaluating evaluate_deltas", n_subs, 200)
+        ctx.floor("R09a", "scenarios with an incomparable delta", n_none, 5)
 
 
-def _idx(space, spin, tag):
-    return Rec("Index", space=space, spin=spin, name=tag)
-
-
-def _geq(x, y):
-    """info(x) >= info(y)"""
-    return (y.space == "general" or x.space == y.space) and (y.spin == "" or x.spin == y.spin)
+def _poly(p):
+    if not p:
+        return "0"
+    return " + ".join(f"{c}*" + "*".join(f"{n}[{','.join(o[0][0] + o[1] + str(o[2]) for o in idx)}]" for n, idx in m)
+                      for m, c in sorted(p.items())[:4]) + (" + ..." if len(p) > 4 else "")
 
 
 def r09b(ctx):
-    cls = "sympy_objects:KroneckerDelta"
-    pk = ctx.model.fn(f"{cls}.{PK}")
-    eq = ctx.model.fn(f"{cls}.indices_contain_equal_information")
-    spaces, spins = ["occ", "virt", "general"], ["", "a", "b"]
-    for (s1, p1), (s2, p2) in itertools.product(itertools.product(spaces, spins), repeat=2):
-        i, j = _idx(s1, p1, "i"), _idx(s2, p2, "j")
-        me = Rec("delta", args=(i, j))
-        label = f"({s1[0]}{p1 or 'n'},{s2[0]}{p2 or 'n'})"
-        vanishing = (s1 != "general" and s2 != "general" and s1 != s2) or (p1 and p2 and p1 != p2)
-        kind, val = Interp({}, what=PK).call(pk, {"self": me})
-        if kind == "raise":
-            ctx.bad("R09b", pk, f"{label}: raises {val}", key=f"pk {label}")
-            continue
-        if vanishing:
-            continue  # such a delta evaluates to zero and never reaches this code
-        if val is None:
-            ctx.ok("R09b", pk, f"{label}: not evaluated (None)", key=f"pk {label}")
-            continue
-        ok = isinstance(val, tuple) and len(val) == 2 and {id(v) for v in val} == {id(i), id(j)}
-        if ok:
-            keep, kill = val
-            ok = _geq(keep, kill)
-        ctx.check("R09b", pk, ok, f"{label}: keeps index with >= information",
-                  f"{label}: returns {val!r}; the kept (first) index must carry at least the space "
-                  "and spin information of the removed (second) index", key=f"pk {label}")
-        kind, val2 = Interp({}, what="equal_info").call(eq, {"self": me})
-        want = (s1 == s2 and p1 == p2)
-        ctx.check("R09b", eq, kind == "return" and bool(val2) == want,
+    pk = ctx.model.fn(f"{KD}.{PK}")
+    eq = ctx.model.fn(f"{KD}.{EQ}")
+    for t1, t2 in itertools.product(TYPES, repeat=2):
+        alg = Algebra()
+        i, j = alg.index("x", *t1), alg.index("y", *t2)
+        me = alg.delta(i, j, evaluate=False)
+        label = f"({tlabel(t1)},{tlabel(t2)})"
+        vanishing = not (dom(i) & dom(j))
+        sx = make_sx(ctx, alg, PK + label)
+        outs = sx.run(pk, lambda: dict(self=me))
+        if len(outs) != 1:
+            raise AnalysisError(f"C09: {PK}{label} is not deterministic on the concrete model: {outs}")
+        o = outs[0]
+        if o.kind == "raise":
+            ctx.bad("R09b", pk, f"{label}: raises {o.exc}", key=f"pk {label}")
+        elif not vanishing:     # a vanishing delta evaluates to zero and never reaches this code
+            val = o.value
+            comparable = geq(i, j) or geq(j, i)
+            if val is None:
+                ctx.check("R09b", pk, not comparable, f"{label}: incomparable information, not evaluated (None)",
+                          f"{label}: returns None although one index carries at least the information of the other "
+                          "(the delta would never be evaluated)", key=f"pk {label}")
+            else:
+                ok = isinstance(val, (tuple, list)) and len(val) == 2 and {id(v) for v in val} == {id(i), id(j)}
+                ok = ok and geq(val[0], val[1])
+                ctx.check("R09b", pk, ok, f"{label}: keeps the index with >= information",
+                          f"{label}: returns {val!r}; the kept (first) index must carry at least the space and spin "
+                          "information of the removed (second) index", key=f"pk {label}")
+        outs = sx.run(eq, lambda: dict(self=me))
+        if len(outs) != 1:
+            raise AnalysisError(f"C09: {EQ}{label} is not deterministic on the concrete model: {outs}")
+        o = outs[0]
+        want = t1 == t2
+        ctx.check("R09b", eq, o.kind == "return" and isinstance(o.value, bool) and o.value == want,
                   f"{label}: equal information == {want}",
-                  f"{label}: indices_contain_equal_information gives {val2}, space/spin equality is {want}",
-                  key=f"eq {label}")
-
-
-def r09c(ctx):
-    fn = ctx.model.fn("func:evaluate_deltas")
-    params = [a.arg for a in fn.args.args]
-    if len(params) < 2:
-        raise AnalysisError("evaluate_deltas lost its target parameter")
-    ex, tg = params[0], params[1]
-    rec = [c for c in calls_in(fn, nested=False) if call_name(c) == "evaluate_deltas"]
-    ctx.floor("R09c", "recursive calls in evaluate_deltas", len(rec), 1)
-    for c in rec:
-        second = c.args[1] if len(c.args) > 1 else next(
-            (k.value for k in c.keywords if k.arg == tg), None)
-        ctx.check("R09c", c, second is not None and U(second) == tg,
-                  "recursion passes the determined target indices",
-                  f"recursive call `{U(c)}` does not pass `{tg}` on", key="recursion target")
-    # ---- Einstein targets: count occurrences per factor
-    stores = []
-    for n in walk_fn(fn, nested=False):
-        if isinstance(n, ast.Assign) and isinstance(n.targets[0], ast.Subscript) \
-                and isinstance(n.value, ast.Constant):
-            stores.append(n)
-    counted = [n for n in walk_fn(fn, nested=False) if isinstance(n, ast.AugAssign)
-               and isinstance(n.target, ast.Subscript)]
-    ctx.floor("R09c", "counter init/increment in evaluate_deltas", len(stores) + len(counted), 2)
-    cname = U(counted[0].target.value) if counted else "?"
-    key = U(counted[0].target.slice) if counted else "?"
-    for n in counted:
-        ctx.check("R09c", n, isinstance(n.op, ast.Add) and U(n.value) == "1"
-                  and (f"{key} in {cname}", True) in conditions(n),
-                  "repeated occurrence increments the counter",
-                  "occurrence counter update is not `+= 1` under `index already seen`",
-                  key="counter inc")
-    init = None
-    for n in stores:
-        if U(n.targets[0].value) == cname:
-            init = n.value.value
-            ctx.check("R09c", n, (f"{U(n.targets[0].slice)} in {cname}", False) in conditions(n),
-                      "first occurrence initialises the counter",
-                      "counter initialisation not under `index not yet seen`", key="counter init")
-    # iteration: every factor, atoms(Index)
-    loops = [n for n in walk_fn(fn, nested=False) if isinstance(n, ast.For)]
-    it_ok = any(U(l.iter) == f"{ex}.args" and any(
-        isinstance(m, ast.For) and U(m.iter) == f"{U(l.target)}.atoms(Index)" for m in ast.walk(l))
-        for l in loops)
-    ctx.check("R09c", fn, it_ok, "counts Index atoms of every factor",
-              "the occurrence count no longer iterates obj.atoms(Index) over all factors",
-              key="count iteration")
-    # target list = indices with the initial count
-    tdefs = [a for a in common.assigns_to(fn, tg) if (f"{tg} is None", True) in conditions(a)]
-    ctx.floor("R09c", "Einstein target definition", len(tdefs), 1)
-    for a in tdefs:
-        v = a.value
-        ok = False
-        if isinstance(v, ast.ListComp) and len(v.generators) == 1:
-            g = v.generators[0]
-            if U(g.iter) == f"{cname}.items()" and isinstance(g.target, ast.Tuple) and len(g.ifs) == 1:
-                s, n = (U(e) for e in g.target.elts)
-                t = U(g.ifs[0])
-                if init == 0:
-                    ok = U(v.elt) == s and t in (f"not {n}", f"{n} == 0")
-                elif init == 1:
-                    ok = U(v.elt) == s and t in (f"{n} == 1",)
-        ctx.check("R09c", a, ok, "target = index that occurs on exactly one factor",
-                  f"Einstein target rule `{U(v)}` (counter starts at {init}) does not select the "
-                  "indices that occur on exactly one factor", key="einstein targets")
-    # deltas collected: only KroneckerDelta factors
-    app = [c for c in calls_in(fn, nested=False) if call_name(c) == "append" and U(c.func.value) == "deltas"]
-    for c in app:
-        ctx.check("R09c", c, (f"isinstance({U(c.args[0])}, KroneckerDelta)", True) in conditions(c),
-                  "only deltas are collected", "non-delta factor collected as delta", key="delta append")
-    comps = [a for a in common.assigns_to(fn, "deltas") if isinstance(a.value, ast.ListComp)]
-    for a in comps:
-        g = a.value.generators[0]
-        t = U(g.target)
-        ctx.check("R09c", a, U(g.iter) == f"{ex}.args" and [U(i) for i in g.ifs] == [f"isinstance({t}, KroneckerDelta)"]
-                  and U(a.value.elt) == t, "explicit targets: deltas among the factors",
-                  f"delta collection `{U(a.value)}` is not the KroneckerDelta factors of the product",
-                  key="delta list")
-    ctx.floor("R09c", "delta collection sites", len(app) + len(comps), 2)
-    # explicit targets converted with get_symbols
-    conv = [a for a in common.assigns_to(fn, tg) if (f"{tg} is None", False) in conditions(a)]
-    for a in conv:
-        ctx.check("R09c", a, U(a.value) == f"get_symbols({tg})", "explicit targets via get_symbols",
-                  f"explicit target conversion is `{U(a.value)}`", key="explicit targets")
-    # after each substitution the deltas are re-derived when more than one is around
-    for c in calls_in(fn, nested=False):
-        if call_name(c) != "subs":
-            continue
-        st = enclosing_stmt(c)
-        par = st._parent
-        lst = next(l for _, l in stmt_lists(par) if any(s is st for s in l))
-        k = next(i for i, s in enumerate(lst) if s is st)
-        ok = False
-        for s in lst[k + 1:]:
-            if isinstance(s, ast.If) and U(s.test) in ("len(deltas) > 1", "len(deltas) >= 2", "1 < len(deltas)"):
-                last = s.body[-1]
-                ok = isinstance(last, ast.Return) and isinstance(last.value, ast.Call) \
-                    and call_name(last.value) == "evaluate_deltas" and U(last.value.args[0]) == U(c.func.value)
-                break
-            if isinstance(s, ast.Return) and isinstance(s.value, ast.Call) and call_name(s.value) == "evaluate_deltas":
-                ok = U(s.value.args[0]) == U(c.func.value)
-                break
-        ctx.check("R09c", c, ok, "remaining deltas re-derived from the substituted expression",
-                  "after this substitution the loop continues with stale deltas (no recursion on the "
-                  "substituted expression when more than one delta is present)", key="rederive")
-    # Add: map over args
-    addret = [r for r in common.returns_of(fn) if (f"isinstance({ex}, Add)", True) in conditions(r)]
-    ok = False
-    for r in addret:
-        v = r.value
-        if isinstance(v, ast.Call) and v.args and isinstance(v.args[0], ast.Starred) \
-                and isinstance(v.args[0].value, (ast.ListComp, ast.GeneratorExp)):
-            g = v.args[0].value
-            ok = U(g.generators[0].iter) == f"{ex}.args" and not g.generators[0].ifs \
-                and call_name(g.elt) == "evaluate_deltas" and U(g.elt.args[0]) == U(g.generators[0].target) \
-                and U(v.func) in (f"{ex}.func", "Add")
-    ctx.check("R09c", fn, ok, "Add: each argument evaluated with the same targets",
-              "Add branch does not map evaluate_deltas over all args", key="add branch")
+                  f"{label}: indices_contain_equal_information gives {o.value if o.kind == 'return' else 'raise ' + str(o.exc)}, "
+                  f"space/spin equality is {want}", key=f"eq {label}")
 
 
 def run(ctx):
-    if ctx.want("R09a"):
-        r09a(ctx)
+    if ctx.want("R09a") or ctx.want("R09c"):
+        r09ac(ctx, ctx.tier)
     if ctx.want("R09b"):
         r09b(ctx)
-    if ctx.want("R09c"):
-        r09c(ctx)
